@@ -103,6 +103,10 @@ theorem survivorsP_proj : ∀ (h : List POp) (liveP : List POp) (marksP : List N
             simp only [POp.markOf]
             rw [List.take_take, Nat.min_eq_left (hle m' hm')]
           rw [h1, h2]
+      | keep n =>
+        simp only [survivorsPAux, POp.dbOps, survivorsAux]
+        rw [ih liveP (marksP.take n) (List.Pairwise.sublist (List.take_sublist _ _) hs)
+          (fun m hm => hb m (List.mem_of_mem_take hm)), List.map_take]
 
 theorem POp.dbOps_of_survivors : ∀ (l : List POp),
     (∀ x ∈ l, (∃ o, x = .db (.op o)) ∨ ∃ t, x = .raw t) →
@@ -162,6 +166,11 @@ theorem survivorsPAux_mem : ∀ (h : List POp) (liveP : List POp) (marksP : List
         · rcases ih _ _ x hx with h1 | h1
           · exact Or.inl h1
           · exact lift h1
+      | keep n =>
+        simp only [survivorsPAux] at hx
+        rcases ih _ _ x hx with h1 | h1
+        · exact Or.inl h1
+        · exact lift h1
 
 theorem POp.mem_raws {l : List POp} {t : Nat} : t ∈ POp.raws l ↔ POp.raw t ∈ l := by
   induction l with
@@ -204,6 +213,10 @@ theorem runB_admissible : ∀ (h : List BOp) (st r : SDB × List BlockSnap), run
       · split at hr
         · exact ih _ r hr o ho
         · cases hr
+    | keep n =>
+      simp only [runB] at hr
+      simp only [List.mem_cons, reduceCtorEq, false_or] at ho
+      exact ih _ r hr o ho
 
 /-- a history of mutations only, no snapshot live: `runB` is `runPlain` -/
 theorem runB_ops : ∀ (l : List SDB.Op) (s : SDB), (∀ o ∈ l, BOp.admissible none o = true) →
